@@ -26,3 +26,13 @@ import RosedVerif.Model.GenEq.Paras
 import RosedVerif.Model.GenEq.WrapOpts
 import RosedVerif.Model.GenEq.IndentOpts
 import RosedVerif.Model.GenEq.InsertTable
+import RosedVerif.Model.GenEq.BlockOps
+import RosedVerif.Model.GenEq.TwoCol
+import RosedVerif.Model.GenEq.DefTable
+import RosedVerif.Model.GenEq.AlignOpts
+import RosedVerif.Model.GenEq.JustifyOpts
+import RosedVerif.Model.GenEq.GemSplit
+import RosedVerif.Model.GenEq.Gem
+import RosedVerif.Model.GenEq.GemOps
+import RosedVerif.Model.GenEq.GemInv
+import RosedVerif.Model.GenEq.GemRev
